@@ -681,7 +681,7 @@ def run_ubfree(ctx, res, n_safe, n_planted, nargs, cli_opts):
                 if len(res.extra.setdefault("findings_on_unreached_statements", [])) < 12:
                     res.extra["findings_on_unreached_statements"].append(dict(id=x["id"], line=x["line"] - lo + 1, text=f["text"]))
                 continue
-            key = None
+            key = classify_ub(f, x, lo)
             for ex_ in f.get("expect") or []:
                 if ex_["id"] == x["id"]:
                     key = ex_["key"]
@@ -694,6 +694,18 @@ def run_ubfree(ctx, res, n_safe, n_planted, nargs, cli_opts):
     res.extra["generator_discarded"] = res.extra.get("generator_discarded", 0) + discarded
     res.oblig("ub:generator-is-ub-free", discarded <= max(2, len(fns) // 50), "validation",
               "" if discarded <= max(2, len(fns) // 50) else "%d of %d generated functions were rejected by the sanitizers" % (discarded, len(fns)))
+
+
+def classify_ub(f, x, lo):
+    """F04d: zerodiv on the statement guarded by `if (ok)` of the flag idiom `int d = 0; int ok = 0; if (..) { d = K; ok = 1; } if (ok) .. / d`
+    (the zero of `d` is a Possible value without condition; the correlation with the flag is lost under an enclosing relational test)"""
+    lines = f["text"].split("\n")
+    k = x["line"] - lo
+    if x["id"] == "zerodiv" and 0 < k < len(lines) and lines[k - 1].strip() == "if (ok)":
+        m = re.search(r"/ (\w+)\)?;", lines[k])
+        if m and re.search(r"int %s = 0;" % m.group(1), f["text"]) and "int ok = 0;" in f["text"]:
+            return "zerodiv-possible-zero-behind-flag-guard"
+    return None
 
 
 def line_coverage(ctx, fns, ks, vecs, d):
@@ -748,18 +760,18 @@ def run(ctx, res):
     drv = ctx.driver("drv_c04")
     exe = os.environ.get("C04_HARNESS") or ctx.harness("c04")      # C04_HARNESS / C04_CPPCHECK: mutation experiments only (docs/C04.md)
     mark("driver + harness build")
-    run_sev(ctx, res, drv, exe, 30000 if thorough else 3000)
+    run_sev(ctx, res, drv, exe, 30000 if thorough else 6000)
     mark("sev")
-    run_leak_corr(ctx, res, drv, 1500 if thorough else 120)
+    run_leak_corr(ctx, res, drv, 1500 if thorough else 200)
     mark("leak correspondence")
-    run_leak_pimpl(ctx, res, drv, 1200 if thorough else 150)
+    run_leak_pimpl(ctx, res, drv, 1200 if thorough else 250)
     mark("leak P_impl")
     opts = [[], ["--enable=warning,portability", "--inconclusive"]]
     if thorough:
         for _ in range(8):
             run_ubfree(ctx, res, 400, 40, 40, opts)
     else:
-        run_ubfree(ctx, res, 150, 20, 40, opts)
+        run_ubfree(ctx, res, 300, 30, 40, opts)
     mark("UB-free functions")
     prune_cache()
 
